@@ -7,6 +7,7 @@ import (
 	"encoding/json"
 	"fmt"
 	"strings"
+	"sync/atomic"
 	"time"
 
 	"gopkg.in/typ.v4/chans"
@@ -83,12 +84,21 @@ func (H) Generate(r *simrt.Rand, tier string) any {
 	if r.Intn(3) == 0 {
 		s.Call = []string{"RecvQueued", "RecvQueuedFull"}[r.Intn(2)]
 		s.Cap = r.Intn(5)
-		s.Fill = r.Intn(s.Cap + 1)
-		s.Closed = r.Intn(3) == 0
 		s.Limit = r.Intn(7)
+		if r.Intn(4) == 0 {
+			// sizes are a tuning knob too: batch- or chunk-size dependent code only
+			// shows with capacities and limits well above a handful
+			s.Cap = r.Intn(70)
+			s.Limit = r.Intn(90)
+		}
+		s.Fill = r.Intn(s.Cap + 1)
+		if r.Intn(3) == 0 {
+			s.Fill = s.Cap
+		}
+		s.Closed = r.Intn(3) == 0
 		if !s.Closed && r.Intn(2) == 0 {
 			for i := 0; i < 1+r.Intn(2); i++ {
-				s.Peers = append(s.Peers, Peer{Kind: "send", Delay: r.Intn(6), N: 1 + r.Intn(3)})
+				s.Peers = append(s.Peers, Peer{Kind: "send", Delay: r.Intn(6), N: 1 + r.Intn(3+s.Cap/8)})
 			}
 		}
 		return s
@@ -180,15 +190,20 @@ func (H) Shrink(sc any) []any {
 
 type simCtx struct {
 	done chan struct{}
-	err  error
+	err  atomic.Value // error; a real context synchronises Err with cancellation too
 }
 
 func (c *simCtx) Deadline() (time.Time, bool) { return time.Time{}, false }
 func (c *simCtx) Done() <-chan struct{}       { return c.done }
-func (c *simCtx) Err() error                  { return c.err }
-func (c *simCtx) Value(any) any               { return nil }
+func (c *simCtx) Err() error {
+	if e, ok := c.err.Load().(error); ok {
+		return e
+	}
+	return nil
+}
+func (c *simCtx) Value(any) any { return nil }
 
-const callerToken = 100
+const callerToken = 500
 
 type result struct {
 	returned bool
@@ -242,7 +257,7 @@ func (H) Execute(scAny any, cfg simrt.Config, st *core.Stats) (*simrt.Outcome, *
 				switch p.Kind {
 				case "send":
 					for k := 0; k < p.count(); k++ {
-						tok := 200 + 10*i + k
+						tok := 1000*(i+1) + k
 						logs[i].offered = append(logs[i].offered, tok)
 						simrt.Send(ch, tok)
 						logs[i].sentAck = append(logs[i].sentAck, tok)
@@ -260,7 +275,7 @@ func (H) Execute(scAny any, cfg simrt.Config, st *core.Stats) (*simrt.Outcome, *
 					simrt.Close(ch)
 				case "cancel":
 					cancelAt = simrt.Stamp()
-					ctx.err = context.Canceled
+					ctx.err.Store(context.Canceled)
 					simrt.Close(ctx.done)
 				}
 				logs[i].acted = true
@@ -409,9 +424,8 @@ func check(sc *Scenario, res *result, logs []peerLog, left []int, cancelAt, clos
 		last := map[int]int{}
 		for _, t := range got {
 			src := 0
-			if t >= 200 {
-				src = (t - 200) / 10
-				src++
+			if t >= 1000 {
+				src = t / 1000
 			}
 			if t <= last[src] {
 				return &core.Violation{Signature: "recvqueued-order", Detail: fmt.Sprintf("%v is not in FIFO order", got)}
